@@ -56,6 +56,7 @@ package parser
 //@   ensures [progress] l.pos > old(l.pos)
 //@   ensures [span] result.Pos.Offset == old(l.pos) && result.End.Offset == l.pos && result.Type == TokenText
 //@   ensures [posvalid] result.Pos.Line >= 1 && result.Pos.Column >= 1 && result.Pos.Line <= len(l.input) + 1 && result.Pos.Column <= len(l.input) + 1
+//@   ensures [C08:endvalid] result.End.Line >= 1 && result.End.Column >= 1 && result.End.Line <= len(l.input) + 1 && result.End.Column <= len(l.input) + 1
 //@   ensures [stop] l.pos == len(l.input) || l.input[l.pos] == '\n' || l.input[l.pos] == ';' || l.input[l.pos] == '|'
 //@   modifies l.pos, l.column
 //@   loop 1 invariant LexInv(l) && Pos16(l) && l.input == old(l.input) && l.atStart == old(l.atStart) && l.line == old(l.line)
@@ -76,6 +77,7 @@ package parser
 //@   ensures [span] result.Pos.Offset == old(l.pos) && result.End.Offset == l.pos && result.Type == TokenNumber
 //@   ensures [C02:number_takes_its_marks] l.pos == len(l.input) || (l.input[l.pos] != '.' && l.input[l.pos] != ',' && (l.input[l.pos] < '0' || l.input[l.pos] > '9'))
 //@   ensures [posvalid] result.Pos.Line >= 1 && result.Pos.Column >= 1 && result.Pos.Line <= len(l.input) + 1 && result.Pos.Column <= len(l.input) + 1
+//@   ensures [C08:endvalid] result.End.Line >= 1 && result.End.Column >= 1 && result.End.Line <= len(l.input) + 1 && result.End.Column <= len(l.input) + 1
 //@   modifies l.pos, l.column
 //@   loop 1 invariant LexInv(l) && Pos16(l) && l.input == old(l.input) && l.atStart == old(l.atStart) && l.line == old(l.line)
 //@   loop 1 invariant old(l.pos) <= l.pos && start == old(l.pos) && startPos.Offset == old(l.pos)
@@ -94,6 +96,7 @@ package parser
 //@   ensures [step] l.pos == old(l.pos) + 1 && l.line == old(l.line) + 1 && l.column == 1 && l.atStart
 //@   ensures [span] result.Pos.Offset == old(l.pos) && result.End.Offset == l.pos && result.Type == TokenNewline
 //@   ensures [posvalid] result.Pos.Line >= 1 && result.Pos.Column >= 1 && result.Pos.Line <= len(l.input) + 1 && result.Pos.Column <= len(l.input) + 1
+//@   ensures [C08:endvalid] result.End.Line >= 1 && result.End.Column >= 1 && result.End.Line <= len(l.input) + 1 && result.End.Column <= len(l.input) + 1
 //@   modifies l.pos, l.column, l.line, l.atStart
 
 //@ func (*Lexer).scanComment
@@ -108,6 +111,7 @@ package parser
 //@   ensures [progress] l.pos > old(l.pos)
 //@   ensures [span] result.Pos.Offset == old(l.pos) && result.End.Offset == l.pos && result.Type == TokenComment
 //@   ensures [posvalid] result.Pos.Line >= 1 && result.Pos.Column >= 1 && result.Pos.Line <= len(l.input) + 1 && result.Pos.Column <= len(l.input) + 1
+//@   ensures [C08:endvalid] result.End.Line >= 1 && result.End.Column >= 1 && result.End.Line <= len(l.input) + 1 && result.End.Column <= len(l.input) + 1
 //@   ensures [stop] l.pos == len(l.input) || l.input[l.pos] == '\n'
 //@   ensures [noNL] forall k :: {l.input[k]} old(l.pos) <= k && k < l.pos ==> l.input[k] != '\n'
 //@   modifies l.pos, l.column
@@ -129,11 +133,13 @@ package parser
 //@   ensures [progress] l.pos > old(l.pos)
 //@   ensures [span] result.Pos.Offset == old(l.pos) && old(l.pos) < result.End.Offset && result.End.Offset <= l.pos && result.Type == TokenAccount
 //@   ensures [posvalid] result.Pos.Line >= 1 && result.Pos.Column >= 1 && result.Pos.Line <= len(l.input) + 1 && result.Pos.Column <= len(l.input) + 1
+//@   ensures [C08:endvalid] result.End.Line >= 1 && result.End.Column >= 1 && result.End.Line <= len(l.input) + 1 && result.End.Column <= len(l.input) + 1
 //@   ensures [C08:lexeme_exact] result.End.Offset == old(l.pos) + len(result.Value)
 //@   modifies l.pos, l.column
 //@   loop 1 invariant LexInv(l) && Pos16(l) && l.input == old(l.input) && l.atStart == old(l.atStart) && l.line == old(l.line)
 //@   loop 1 invariant old(l.pos) <= lastNonSpace && lastNonSpace <= l.pos && start == old(l.pos) && startPos.Offset == old(l.pos) && endPos.Offset == lastNonSpace && PosOK(l.input, endPos)
 //@   loop 1 invariant l.pos > old(l.pos) ==> lastNonSpace > old(l.pos)
+//@   loop 1 invariant endPos.Line >= 1 && endPos.Column >= 1 && endPos.Line <= len(l.input) + 1 && endPos.Column <= len(l.input) + 1
 //@   loop 1 invariant l.pos == old(l.pos) ==> rune(l.input, l.pos) != ' ' && rune(l.input, l.pos) != '\t' && rune(l.input, l.pos) != '\n' && rune(l.input, l.pos) != '\r' && rune(l.input, l.pos) != ';' && rune(l.input, l.pos) != '@' && rune(l.input, l.pos) != '=' && rune(l.input, l.pos) != '(' && rune(l.input, l.pos) != ')' && rune(l.input, l.pos) != '[' && rune(l.input, l.pos) != ']'
 //@   loop 1 decreases len(l.input) - l.pos
 
@@ -149,6 +155,7 @@ package parser
 //@   ensures [progress] old(l.pos) < len(l.input) ==> l.pos > old(l.pos)
 //@   ensures [span] old(l.pos) <= result.Pos.Offset && result.Pos.Offset <= result.End.Offset && result.End.Offset <= l.pos
 //@   ensures [posvalid] result.Pos.Line >= 1 && result.Pos.Column >= 1 && result.Pos.Line <= len(l.input) + 1 && result.Pos.Column <= len(l.input) + 1
+//@   ensures [C08:endvalid] result.End.Line >= 1 && result.End.Column >= 1 && result.End.Line <= len(l.input) + 1 && result.End.Column <= len(l.input) + 1
 //@   ensures [eof] result.Type == TokenEOF ==> l.pos == len(l.input)
 //@   ensures [C17:pos_at_lexeme] result.Type != TokenEOF ==> result.Pos.Offset == skipsp(l.input, old(l.pos))
 //@   modifies l.pos, l.column, l.line, l.atStart
@@ -228,6 +235,7 @@ package parser
 //@   ensures [progress] l.pos > old(l.pos)
 //@   ensures [span] result.Pos.Offset == old(l.pos) && result.End.Offset == l.pos && result.Type == TokenDate
 //@   ensures [posvalid] result.Pos.Line >= 1 && result.Pos.Column >= 1 && result.Pos.Line <= len(l.input) + 1 && result.Pos.Column <= len(l.input) + 1
+//@   ensures [C08:endvalid] result.End.Line >= 1 && result.End.Column >= 1 && result.End.Line <= len(l.input) + 1 && result.End.Column <= len(l.input) + 1
 //@   ensures [frame] Frame3(l)
 //@   modifies l.pos, l.column
 //@   loop 1 invariant LexInv(l) && Pos16(l) && Frame3(l) && old(l.pos) <= l.pos && start == old(l.pos) && startPos.Offset == old(l.pos)
@@ -246,6 +254,7 @@ package parser
 //@   ensures [progress] l.pos > old(l.pos)
 //@   ensures [span] result.Pos.Offset == old(l.pos) && result.End.Offset == l.pos && result.Type == TokenStatus
 //@   ensures [posvalid] result.Pos.Line >= 1 && result.Pos.Column >= 1 && result.Pos.Line <= len(l.input) + 1 && result.Pos.Column <= len(l.input) + 1
+//@   ensures [C08:endvalid] result.End.Line >= 1 && result.End.Column >= 1 && result.End.Line <= len(l.input) + 1 && result.End.Column <= len(l.input) + 1
 //@   ensures [frame] Frame3(l)
 //@   modifies l.pos, l.column
 
@@ -261,6 +270,7 @@ package parser
 //@   ensures [progress] l.pos > old(l.pos)
 //@   ensures [span] result.Pos.Offset == old(l.pos) && result.End.Offset == l.pos && result.Type == TokenCode
 //@   ensures [posvalid] result.Pos.Line >= 1 && result.Pos.Column >= 1 && result.Pos.Line <= len(l.input) + 1 && result.Pos.Column <= len(l.input) + 1
+//@   ensures [C08:endvalid] result.End.Line >= 1 && result.End.Column >= 1 && result.End.Line <= len(l.input) + 1 && result.End.Column <= len(l.input) + 1
 //@   ensures [frame] Frame3(l)
 //@   modifies l.pos, l.column
 //@   loop 1 invariant LexInv(l) && Pos16(l) && Frame3(l) && old(l.pos) < start && start <= l.pos && startPos.Offset == old(l.pos)
@@ -278,6 +288,7 @@ package parser
 //@   ensures [progress] l.pos > old(l.pos)
 //@   ensures [span] result.Pos.Offset == old(l.pos) && result.End.Offset == l.pos && result.Type == TokenIndent
 //@   ensures [posvalid] result.Pos.Line >= 1 && result.Pos.Column >= 1 && result.Pos.Line <= len(l.input) + 1 && result.Pos.Column <= len(l.input) + 1
+//@   ensures [C08:endvalid] result.End.Line >= 1 && result.End.Column >= 1 && result.End.Line <= len(l.input) + 1 && result.End.Column <= len(l.input) + 1
 //@   ensures [frame] Frame3(l)
 //@   modifies l.pos, l.column
 //@   loop 1 invariant LexInv(l) && Pos16(l) && Frame3(l) && old(l.pos) <= l.pos && start == old(l.pos) && startPos.Offset == old(l.pos)
@@ -297,6 +308,7 @@ package parser
 //@   ensures [progress] l.pos > old(l.pos)
 //@   ensures [span] result.Pos.Offset == old(l.pos) && result.End.Offset == l.pos && result.Type == TokenCommodity
 //@   ensures [posvalid] result.Pos.Line >= 1 && result.Pos.Column >= 1 && result.Pos.Line <= len(l.input) + 1 && result.Pos.Column <= len(l.input) + 1
+//@   ensures [C08:endvalid] result.End.Line >= 1 && result.End.Column >= 1 && result.End.Line <= len(l.input) + 1 && result.End.Column <= len(l.input) + 1
 //@   ensures [frame] Frame3(l)
 //@   modifies l.pos, l.column
 
@@ -312,6 +324,7 @@ package parser
 //@   ensures [progress] l.pos > old(l.pos)
 //@   ensures [span] result.Pos.Offset == old(l.pos) && result.End.Offset == l.pos && result.Type == TokenCommodity
 //@   ensures [posvalid] result.Pos.Line >= 1 && result.Pos.Column >= 1 && result.Pos.Line <= len(l.input) + 1 && result.Pos.Column <= len(l.input) + 1
+//@   ensures [C08:endvalid] result.End.Line >= 1 && result.End.Column >= 1 && result.End.Line <= len(l.input) + 1 && result.End.Column <= len(l.input) + 1
 //@   ensures [frame] Frame3(l)
 //@   modifies l.pos, l.column
 //@   loop 1 invariant LexInv(l) && Pos16(l) && Frame3(l) && old(l.pos) < start && start <= l.pos && startPos.Offset == old(l.pos)
@@ -329,6 +342,7 @@ package parser
 //@   ensures [progress] l.pos > old(l.pos)
 //@   ensures [span] result.Pos.Offset == old(l.pos) && result.End.Offset == l.pos && (result.Type == TokenAt || result.Type == TokenAtAt)
 //@   ensures [posvalid] result.Pos.Line >= 1 && result.Pos.Column >= 1 && result.Pos.Line <= len(l.input) + 1 && result.Pos.Column <= len(l.input) + 1
+//@   ensures [C08:endvalid] result.End.Line >= 1 && result.End.Column >= 1 && result.End.Line <= len(l.input) + 1 && result.End.Column <= len(l.input) + 1
 //@   ensures [frame] Frame3(l)
 //@   modifies l.pos, l.column
 
@@ -344,6 +358,7 @@ package parser
 //@   ensures [progress] l.pos > old(l.pos)
 //@   ensures [span] result.Pos.Offset == old(l.pos) && result.End.Offset == l.pos && (result.Type == TokenEquals || result.Type == TokenDoubleEquals)
 //@   ensures [posvalid] result.Pos.Line >= 1 && result.Pos.Column >= 1 && result.Pos.Line <= len(l.input) + 1 && result.Pos.Column <= len(l.input) + 1
+//@   ensures [C08:endvalid] result.End.Line >= 1 && result.End.Column >= 1 && result.End.Line <= len(l.input) + 1 && result.End.Column <= len(l.input) + 1
 //@   ensures [frame] Frame3(l)
 //@   modifies l.pos, l.column
 
@@ -359,6 +374,7 @@ package parser
 //@   ensures [progress] l.pos > old(l.pos)
 //@   ensures [span] result.Pos.Offset == old(l.pos) && result.End.Offset == l.pos && result.Type == TokenSign
 //@   ensures [posvalid] result.Pos.Line >= 1 && result.Pos.Column >= 1 && result.Pos.Line <= len(l.input) + 1 && result.Pos.Column <= len(l.input) + 1
+//@   ensures [C08:endvalid] result.End.Line >= 1 && result.End.Column >= 1 && result.End.Line <= len(l.input) + 1 && result.End.Column <= len(l.input) + 1
 //@   ensures [frame] Frame3(l)
 //@   modifies l.pos, l.column
 
@@ -374,6 +390,7 @@ package parser
 //@   ensures [progress] l.pos > old(l.pos)
 //@   ensures [span] result.Pos.Offset == old(l.pos) && old(l.pos) < result.End.Offset && result.End.Offset <= l.pos && result.Type != TokenEOF
 //@   ensures [posvalid] result.Pos.Line >= 1 && result.Pos.Column >= 1 && result.Pos.Line <= len(l.input) + 1 && result.Pos.Column <= len(l.input) + 1
+//@   ensures [C08:endvalid] result.End.Line >= 1 && result.End.Column >= 1 && result.End.Line <= len(l.input) + 1 && result.End.Column <= len(l.input) + 1
 //@   ensures [frame] Frame3(l)
 //@   modifies l.pos, l.column
 //@   loop 1 invariant LexInv(l) && Pos16(l) && Frame3(l) && start == old(l.pos) && start <= l.pos && startPos.Offset == old(l.pos) && startPos.Column == old(l.column)
@@ -394,6 +411,7 @@ package parser
 //@   ensures [progress] l.pos > old(l.pos)
 //@   ensures [span] result.Pos.Offset == old(l.pos) && result.End.Offset == l.pos && result.Type != TokenEOF
 //@   ensures [posvalid] result.Pos.Line >= 1 && result.Pos.Column >= 1 && result.Pos.Line <= len(l.input) + 1 && result.Pos.Column <= len(l.input) + 1
+//@   ensures [C08:endvalid] result.End.Line >= 1 && result.End.Column >= 1 && result.End.Line <= len(l.input) + 1 && result.End.Column <= len(l.input) + 1
 //@   ensures [frame] Frame3(l)
 //@   modifies l.pos, l.column
 //@   loop 1 invariant LexInv(l) && Pos16(l) && Frame3(l) && start == old(l.pos) && start <= l.pos && startPos.Offset == old(l.pos) && startPos.Column == old(l.column)
@@ -413,6 +431,7 @@ package parser
 //@   ensures [progress] l.pos > old(l.pos)
 //@   ensures [span] old(l.pos) <= result.Pos.Offset && result.Pos.Offset <= result.End.Offset && result.End.Offset <= l.pos
 //@   ensures [posvalid] result.Pos.Line >= 1 && result.Pos.Column >= 1 && result.Pos.Line <= len(l.input) + 1 && result.Pos.Column <= len(l.input) + 1
+//@   ensures [C08:endvalid] result.End.Line >= 1 && result.End.Column >= 1 && result.End.Line <= len(l.input) + 1 && result.End.Column <= len(l.input) + 1
 //@   ensures [eof] result.Type == TokenEOF ==> l.pos == len(l.input)
 //@   modifies l.pos, l.column, l.line, l.atStart
 
@@ -429,12 +448,13 @@ package parser
 //@   ensures [atend] old(l.pos) >= len(l.input) ==> result.Type == TokenEOF && l.pos == old(l.pos)
 //@   ensures [span] old(l.pos) <= result.Pos.Offset && result.Pos.Offset <= result.End.Offset && result.End.Offset <= l.pos
 //@   ensures [posvalid] result.Pos.Line >= 1 && result.Pos.Column >= 1 && result.Pos.Line <= len(l.input) + 1 && result.Pos.Column <= len(l.input) + 1
+//@   ensures [C08:endvalid] result.End.Line >= 1 && result.End.Column >= 1 && result.End.Line <= len(l.input) + 1 && result.End.Column <= len(l.input) + 1
 //@   ensures [eof] result.Type == TokenEOF ==> l.pos == len(l.input)
 //@   modifies l.pos, l.column, l.line, l.atStart
 
 //@ pred PosIn(q, n) := q.Line >= 1 && q.Column >= 1 && q.Line <= n + 1 && q.Column <= n + 1
 //@ pred ErrOK(p) := forall k int :: {p.errors[k]} 0 <= k && k < len(p.errors) ==> PosIn(p.errors[k].Pos, len(p.lexer.input))
-//@ pred ParInv(p) := p != nil && p.lexer != nil && LexInv(p.lexer) && Pos16(p.lexer) && (p.current.Type == TokenEOF ==> p.lexer.pos == len(p.lexer.input)) && PosIn(p.current.Pos, len(p.lexer.input)) && ErrOK(p)
+//@ pred ParInv(p) := p != nil && p.lexer != nil && LexInv(p.lexer) && Pos16(p.lexer) && (p.current.Type == TokenEOF ==> p.lexer.pos == len(p.lexer.input)) && PosIn(p.current.Pos, len(p.lexer.input)) && PosIn(p.current.End, len(p.lexer.input)) && ErrOK(p)
 //@ pred MuLe(p) := 2 * (len(p.lexer.input) - p.lexer.pos) + ite(p.current.Type != TokenEOF, 1, 0) <= old(2 * (len(p.lexer.input) - p.lexer.pos) + ite(p.current.Type != TokenEOF, 1, 0))
 //@ pred MuLt(p) := 2 * (len(p.lexer.input) - p.lexer.pos) + ite(p.current.Type != TokenEOF, 1, 0) < old(2 * (len(p.lexer.input) - p.lexer.pos) + ite(p.current.Type != TokenEOF, 1, 0))
 //@ pred Mu(p) := 2 * (len(p.lexer.input) - p.lexer.pos) + ite(p.current.Type != TokenEOF, 1, 0)
@@ -575,9 +595,10 @@ package parser
 //@   loop 2 decreases 2 * (len(p.lexer.input) - p.lexer.pos) + ite(p.current.Type != TokenEOF, 1, 0)
 
 //@ func (*Parser).parseAccountDirective
-//@   props C06
+//@   props C06 C08
 //@   requires ParInv(p)
 //@   ensures [inv] ParInv(p) && PFrame(p) && MuLe(p)
+//@   ensures [C08:account_range] typeis(result, "ast.AccountDirective") ==> PosIn(as(result, "ast.AccountDirective").Account.Range.Start, len(p.lexer.input)) && PosIn(as(result, "ast.AccountDirective").Account.Range.End, len(p.lexer.input))
 //@   modifies p.current, p.errors, p.defaultYear, p.lexer.pos, p.lexer.column, p.lexer.line, p.lexer.atStart
 //@   loop 1 invariant ParInv(p) && PFrame(p) && MuLe(p)
 //@   loop 1 decreases 2 * (len(p.lexer.input) - p.lexer.pos) + ite(p.current.Type != TokenEOF, 1, 0)
